@@ -753,6 +753,11 @@ class Interp:
         if isinstance(op, (ast.Lt, ast.LtE, ast.Gt, ast.GtE)):
             if isinstance(a, (int, Fr)) and isinstance(b, (int, Fr)):
                 return {ast.Lt: a < b, ast.LtE: a <= b, ast.Gt: a > b, ast.GtE: a >= b}[type(op)]
+        pol = getattr(self, "compare_policy", None)
+        if pol is not None:
+            r = pol(node, a, b)
+            if r is not None:
+                return r
         raise Unsupported(f"undecidable comparison {ast.unparse(node)}")
 
     def truth(self, v) -> bool:
